@@ -13,7 +13,7 @@ from instr import core, diskcache
 ID = 'C08'
 COQ_PROP = 'C08'
 LEVEL = 'proof'
-TRANSLATE = ['sql', 'disk', 'format']      # format: Cache.__init__ re-applies settings and creates the triggers that keep count and size
+TRANSLATE = ['sql', 'disk', 'format', 'checkfn', 'fanout', 'persistent']      # format: Cache.__init__ re-applies settings and creates the triggers that keep count and size
 TRUSTED = [
     'trigger semantics (AFTER INSERT/UPDATE/DELETE ... FOR EACH ROW) as modelled by t_insert/t_update/t_delete in coq/model/Cache.v, with the trigger arithmetic compiled from the DDL in core.py',
     'fault injection raises before the intercepted statement/file operation executes; COMMIT/ROLLBACK and os.remove are not injection points (a failed COMMIT keeps the SQLite transaction open, a failed unlink keeps the file: neither can be repaired by the library)',
